@@ -9,7 +9,17 @@ ENGINES = [
         "real shuttle crates compiled with feature verif-hooks; decided by CBMC 6.11 + CaDiCaL. The same harnesses build "
         "natively against a stand-in for the kani crate (src/shim.rs, src/bin/native.rs) for harness validation and for "
         "replaying counterexamples against the real code before a violation is reported.",
-    }
+    },
+    {
+        "name": "mirsym-z3",
+        "path": "/verif/lib/mirsym.py",
+        "serves_properties": ["C09"],
+        "kind_free_text": "symbolic execution of rustc MIR with z3: the nightly compiler dumps the MIR of shuttle-schedulers from the scratch "
+        "copy of /repo on every run (-Zunpretty=mir); lib/mirsym.py executes the functions of dfs.rs (and their closures) from that text: scalars "
+        "are 64-bit bit-vectors / booleans, aggregates and references concrete objects, every undecided branch is a z3 feasibility query and a fork, "
+        "assertions are z3 validity queries over the path condition; calls into std are hand-written models (lib/mir_builtins.py, listed as "
+        "assumptions). Counterexamples are replayed natively against the real DfsScheduler (kani/core/src/bin/treereplay.rs) before a violation is reported.",
+    },
 ]
 
 NOTES = (
@@ -28,6 +38,22 @@ NOTES = (
 _K = "bounded model checking of the compiled real code (Kani/CBMC, SAT): "
 
 CLAIMS = {
+    "C09": {
+        "engine": "mirsym-z3",
+        "text": "Solver verdict (z3 over the MIR of the real DfsScheduler, regenerated from /repo on every run) for the scheduler side of the property: "
+        "(a) whole runs over every choice tree within the bound (depth <= 2 with <= 3 tasks offered per decision and any usize iteration bound, depth <= 3 "
+        "with <= 2 tasks; thorough: depth 4 x 2 tasks, depth 3 x 2 and depth 2 x 4 with any bound; branching may depend on all earlier choices; task ids symbolic): "
+        "every maximal sequence of choices is run exactly once, the run then stops, with a bound exactly min(bound, #schedules) distinct schedules are run, "
+        "only offered tasks are chosen, the scheduler never panics, and seed and draws are the same in every execution; (b) one call of next_task / "
+        "new_execution from an ARBITRARY scheduler state satisfying the representation invariant (stack length <= 3 quick / 5-6 thorough, symbolic contents): "
+        "result and post-state equal the lexicographic-successor specification of depth-first enumeration and re-establish the invariant - the inductive step that "
+        "extends (a) to trees of any shape whose depth stays within the stack length; (c) Kani/CBMC: the real FixedDataSource rewinds to the same stream and "
+        "seed in every execution. check_dfs, the Runner and the runtime that turns a program into a choice tree are not covered (engine-level).",
+        "note": "std's Vec / slice / Option / iterator functions called by dfs.rs are hand-written models (lib/mir_builtins.py), the data source is an abstract "
+        "rewindable stream in the MIR jobs (its real code is decided by the Kani harness); vector lengths are concrete per path (the executor forks on tree shape).",
+        "technique": "symbolic execution of the real code's MIR (rustc nightly dump of /repo's current source) with z3: path feasibility and assertions are SMT "
+        "queries over symbolic task ids, bounds and scheduler states; forks on tree shape; plus one Kani/CBMC harness for the data source",
+    },
     "C01": {
         "text": "Solver verdict for every recorded schedule of 3 (quick) / 4 (thorough) steps over two tasks and random markers: the real ReplayScheduler returns exactly the recorded task at every decision and serves exactly the seeded data stream at every random marker, runs exactly one execution and reports the recorded seed; it never substitutes another task for a recorded one that is not offered; the seed RandomDataSource reports for each of its first three executions reproduces that execution's data stream; the nondeterminism checker accepts a replaying execution that repeats the recording one; offered tasks may be runnable or parked. Recording side, draws only: inside an execution state every shuttle::rand draw appends exactly one Random marker in position and is served by exactly one call of the scheduler. Together with C16 (string form) this is the replay side of the property plus the draw half of the recording side. Recording of task steps (ExecutionState::schedule) and whole-program record->replay equality are not covered (engine-level harnesses exceed the solver).",
         "note": "K-pure harnesses over ReplayScheduler / RandomDataSource / UncontrolledNondeterminismCheckScheduler with coroutine-less stub tasks; concrete data seeds (PCG's 128-bit multiply on symbolic seeds does not finish).",
@@ -112,9 +138,6 @@ NOT_APPLICABLE = {
     "Kani runs end in non-replayable pointer failures inside VecDeque<(usize, VectorClock)> (inconclusive), so nothing is claimed.",
     "C06": "mpsc send/recv block through ExecutionState and wait queues of Arc-shared state: " + _ENGINE + ".",
     "C07": "spawn/join/scope/thread-locals need coroutines, catch_unwind (Kani 0.68 ICE) and the execution loop: " + _ENGINE + ".",
-    "C09": "DfsScheduler is a K-pure target and the harness (kani/core/src/c09.rs: every depth-2 choice tree, validated natively on "
-    "20000 random trees) exists, but its symbolic-length `levels` vector exhausts 12 GB and 34 GB in CBMC's post-processing; "
-    "no instance was decided, so nothing is claimed.",
     "C11": "PctScheduler keeps priorities in a HashMap seeded with 16 entries and samples with rand (shuffle, sample, gen_range: "
     "unbounded rejection loops); hashbrown's SIMD group probing alone dominated every harness it was reachable from; the "
     "detection-probability bound is a probabilistic statement.",
